@@ -1212,11 +1212,16 @@ GENERATORS = [("chain", gen_chain, 1), ("bytes", gen_bytes, 5), ("soup", gen_sou
 
 class _Huge:
     """Narrow predicate of the open finding `timeout:constant-field-size>=10^6`: some field
-    size expression `[+ … ]` contains a numeric literal >= 10**6, or a `Type:N` size specifier has
-    N >= 10**6 (textual over-approximation
-    of "the constant size of a field is astronomically large")."""
+    size expression `[+ … ]` contains a numeric literal >= 10**6 or a bound function
+    (`$upper_bound(…)`/`$lower_bound(…)`, constant-evaluated since fix 262d011), or a `Type:N` size
+    specifier has N >= 10**6 (textual over-approximation of "the constant size of a field is
+    astronomically large"; it only names the key of an input that *did* exhaust its CPU budget and
+    steers the random generators away from such sizes)."""
     _num = re.compile(r"0[xX][0-9a-fA-F_]+|0[bB][01_]+|[0-9][0-9_]*")
     _tsize = re.compile(r"[A-Za-z]:([0-9][0-9_]*)")
+    # round 2: since fix 262d011 `$upper_bound(x)`/`$lower_bound(x)` are evaluated in constant
+    # expressions, so `[+$upper_bound(f)]` with a 32-bit `f` is a constant size of 2**31 bytes
+    _bound = re.compile(r"\$(upper_bound|lower_bound)\b")
 
     def search(self, text):
         for line in text.splitlines():
@@ -1231,6 +1236,9 @@ class _Huge:
                         if depth == 0:
                             break
                     j += 1
+                m = self._bound.search(line[i + 2:j])
+                if m:
+                    return m
                 for m in self._num.finditer(line[i + 2:j]):
                     t = m.group(0).replace("_", "")
                     try:
